@@ -65,6 +65,54 @@ def t_loop_marker(flag, marker):
         open(marker, 'w').write('finally ran')
 
 
+def t_in_except(flag, marker):
+    """the request finds the target recovering from an exception of its own (inside an `except` clause)"""
+    try:
+        try:
+            raise KeyError('caught by the target')
+        except KeyError:
+            open(flag, 'w').write('in')
+            while True:
+                time.sleep(0.002)
+    finally:
+        open(marker, 'w').write('finally ran')
+
+
+def t_in_finally_of_error(flag, marker):
+    """... or cleaning up (a `finally` block) while an exception of its own is on its way out"""
+    try:
+        try:
+            raise ValueError('raised by the target')
+        finally:
+            open(flag, 'w').write('in')
+            while True:
+                time.sleep(0.002)
+    finally:
+        open(marker, 'w').write('finally ran')
+
+
+class _Ctx:
+    def __init__(self, flag):
+        self.flag = flag
+
+    def __enter__(self):
+        return self
+
+    def __exit__(self, *exc):
+        open(self.flag, 'w').write('in')
+        while True:
+            time.sleep(0.002)
+
+
+def t_in_exit_of_error(flag, marker):
+    """... or inside the __exit__ of a context manager left by an exception"""
+    try:
+        with _Ctx(flag):
+            raise LookupError('raised by the target')
+    finally:
+        open(marker, 'w').write('finally ran')
+
+
 def real_terminate_cases(res, tier):
     """C03 through the real terminate(): target inside try/finally, idle persistent workers; all kinds."""
     import tempfile
@@ -79,17 +127,21 @@ def real_terminate_cases(res, tier):
     server = spawn_server(('127.0.0.1', 0))
     d = tempfile.mkdtemp(prefix='pwverif_c03_', dir=os.path.join(core.VERIF, 'scratch'))
     try:
-        for name, cls, kw in (('thread', ThreadWorker, {}), ('process', ProcessWorker, {}), ('remote', RemoteWorker, dict(host=server.addr))):
-            flag, marker = os.path.join(d, name + '.flag'), os.path.join(d, name + '.marker')
-            w = cls(t_loop_marker, args=(flag, marker), **kw)
+        phases = [('inside try/finally', t_loop_marker), ('inside an except clause handling an exception of the target', t_in_except),
+                  ('inside a finally block run because of an exception of the target', t_in_finally_of_error),
+                  ('inside the __exit__ of a context manager left by an exception of the target', t_in_exit_of_error)]
+        for name, cls, kw, phase, tgt in [(n, c, k, ph, t) for (n, c, k) in (('thread', ThreadWorker, {}), ('process', ProcessWorker, {}), ('remote', RemoteWorker, dict(host=server.addr)))
+                                          for ph, t in phases]:
+            flag, marker = os.path.join(d, f'{name}.{tgt.__name__}.flag'), os.path.join(d, f'{name}.{tgt.__name__}.marker')
+            w = cls(tgt, args=(flag, marker), **kw)
             t0 = time.time()
             while not os.path.exists(flag) and time.time() - t0 < 20:
                 time.sleep(0.01)
             ok = w.terminate(timeout=10)
             he, r, e = w.has_error, w.result, w.error
-            res.count('real-terminate:' + name); res.case(('real-terminate', name), nontrivial=True)
+            res.count('real-terminate:' + name); res.case(('real-terminate', name, phase), nontrivial=True)
             if not (ok is True and he is True and r is None and isinstance(e, WorkerTerminatedError) and os.path.exists(marker)):
-                res.violation(dict(kind=name, phase='inside try/finally', features=[]),
+                res.violation(dict(kind=name, phase=phase, features=[]),
                               f'terminate() of a running interruptible target: returned {ok}, has_error={he}, result={r!r}, error={e!r}, finally ran={os.path.exists(marker)}')
         for name, cls, kw in (('pthread', PersistentThreadWorker, {}), ('pprocess', PersistentProcessWorker, {}), ('premote', PersistentRemoteWorker, dict(host=server.addr))):
             w = cls(p_target, **kw)
